@@ -200,7 +200,6 @@ def members(kind, tier="thorough"):
 
 
 REGION = {
-    "line": "RegionLine",
     "quad": "RegionQuad",
     "quad8": "RegionQuadraticQuad",
     "quad9": "RegionBiQuadraticQuad",
@@ -219,7 +218,28 @@ REGION = {
 def region(kind, mesh, **kw):
     import felupe as fem
 
+    if kind == "line":
+        return fem.Region(mesh, fem.Line(), fem.GaussLegendre(order=1, dim=1), **kw)
+    if kind.startswith("lagrange"):
+        dim, order = int(kind[8]), int(kind[10:])
+        return fem.RegionLagrange(mesh, order=order, dim=dim, **kw)
     return getattr(fem, REGION[kind])(mesh, **kw)
+
+
+def lagrange_mesh(dim, order, member, seed=0):
+    """single-cell arbitrary-order mesh: ref | affine | curved (interior/edge nodes moved)"""
+    import felupe as fem
+
+    if dim == 2:
+        m = fem.mesh.RectangleArbitraryOrderQuad(order=order)
+    else:
+        m = fem.mesh.CubeArbitraryOrderHexahedron(order=order)
+    pts = m.points.copy()
+    if member == "affine":
+        pts = pts @ affine_matrix(dim, seed).T + 0.1 * offvec(seed, 9, dim)
+    if member == "curved":
+        pts = pts + 0.06 / order * offarr(seed, 13, pts.shape)
+    return fem.Mesh(pts, m.cells, m.cell_type)
 
 
 # ----------------------------------------------------------------------------- F lattice
